@@ -75,11 +75,41 @@ type cacheEnv struct {
 	cbs [][]KV
 	// cur reports the calling thread.
 	cur func() int
+	// Fault: the panicAt-th invocation (1-based, counted over sizeOf and onEvict
+	// together) panics with injectedPanic; 0 = never. Counted across threads,
+	// so touched only in norace helpers.
+	panicAt int64
+	calls   int64
+	fired   bool
 }
+
+// injectedPanic is the value a faulty user callback panics with.
+type injectedPanic struct{}
+
+func (injectedPanic) String() string { return "injected callback panic" }
+
+//go:norace
+func (e *cacheEnv) tick() bool {
+	if e.panicAt == 0 {
+		return false
+	}
+	e.calls++
+	if e.calls == e.panicAt {
+		e.fired = true
+		return true
+	}
+	return false
+}
+
+//go:norace
+func (e *cacheEnv) faultFired() bool { return e.fired }
 
 func (e *cacheEnv) sizeOf(v int) int64 {
 	if e.yields {
 		sched.Yield(sched.KPoint, siteSizeOf, int64(v))
+	}
+	if e.tick() {
+		panic(injectedPanic{})
 	}
 	return sizeOfValue(e.sized, v)
 }
@@ -87,6 +117,9 @@ func (e *cacheEnv) sizeOf(v int) int64 {
 func (e *cacheEnv) onEvict(k, v int) {
 	if e.yields {
 		sched.Yield(sched.KPoint, siteCallback, int64(k)<<32|int64(uint32(v)))
+	}
+	if e.tick() {
+		panic(injectedPanic{})
 	}
 	t := e.cur()
 	e.cbs[t] = append(e.cbs[t], KV{k, v})
